@@ -24,6 +24,7 @@ import (
 	"errors"
 	"net/http"
 	"net/http/httputil"
+	"strconv"
 	"strings"
 	"time"
 
@@ -79,6 +80,11 @@ func (rt *RoundTripper) cacheResponse(req *http.Request, resp *http.Response) {
 		return
 	}
 
+	if obj.RespDirectives.NoCachePresent {
+		// such a response must not be reused without validating it with the origin server, which is not supported
+		return
+	}
+
 	if len(resp.Header.Values("Vary")) != 0 {
 		// the response depends on request header fields, which are not part of the cache key
 		return
@@ -96,7 +102,9 @@ func (rt *RoundTripper) cacheResponse(req *http.Request, resp *http.Response) {
 		expires = time.Now().Add(rt.DefaultCacheTTL)
 	}
 
-	ttl := time.Until(expires)
+	// the response is fresh as long as its age, which includes the time it already spent on its way (in other
+	// caches), does not exceed its freshness lifetime (RFC 7234, section 4.2.3)
+	ttl := time.Until(expires) - initialAge(obj)
 	if ttl <= 0 {
 		// the freshness lifetime is already over, nothing to cache
 		return
@@ -110,6 +118,22 @@ func (rt *RoundTripper) cacheResponse(req *http.Request, resp *http.Response) {
 	ctx := req.Context()
 	cch := cache.Ctx(ctx)
 	cch.Set(ctx, cacheKey(req), respDump, ttl) //nolint:errcheck
+}
+
+// initialAge returns the age of the response at the time of its receipt: the maximum of the value of the
+// Age header and the time elapsed since the response has been generated according to its Date header.
+func initialAge(obj *cacheobject.Object) time.Duration {
+	var age time.Duration
+
+	if value, err := strconv.ParseInt(strings.TrimSpace(obj.RespHeaders.Get("Age")), 10, 64); err == nil && value > 0 {
+		age = time.Duration(value) * time.Second
+	}
+
+	if !obj.RespDateHeader.IsZero() {
+		age = max(age, obj.NowUTC.Sub(obj.RespDateHeader))
+	}
+
+	return age
 }
 
 // isCacheable reports whether the response to the given request may be looked up in, respectively
